@@ -1,0 +1,49 @@
+//go:build verif
+
+// Copyright (C) 2022 The go-redis Authors All rights reserved.
+//
+// Licensed under the Apache License, Version 2.0 (the "License");
+// you may not use this file except in compliance with the License.
+// You may obtain a copy of the License at
+//
+//    http://www.apache.org/licenses/LICENSE-2.0
+//
+// Unless required by applicable law or agreed to in writing, software
+// distributed under the License is distributed on an "AS IS" BASIS,
+// WITHOUT WARRANTIES OR CONDITIONS OF ANY KIND, either express or implied.
+// See the License for the specific language governing permissions and
+// limitations under the License.
+
+package redis
+
+import (
+	"crypto/tls"
+	"net"
+)
+
+// VerifYield, when set, is called at the schedule points of the server
+// (only in builds with the verif tag). It must be set before the server is used.
+var VerifYield func(point string, obj any)
+
+// VerifListen, when set, replaces net.Listen for the server listeners
+// (only in builds with the verif tag).
+var VerifListen func(network string, addr string) (net.Listener, error)
+
+func verifYield(point string, obj any) {
+	if f := VerifYield; f != nil {
+		f(point, obj)
+	}
+}
+
+func netListen(network string, addr string) (net.Listener, error) {
+	if f := VerifListen; f != nil {
+		return f(network, addr)
+	}
+	return net.Listen(network, addr)
+}
+
+// VerifServeConn serves the specified connection synchronously through the
+// real connection loop (only in builds with the verif tag).
+func (server *Server) VerifServeConn(conn net.Conn, tlsState *tls.ConnectionState) error {
+	return server.receive(conn, tlsState)
+}
